@@ -86,7 +86,13 @@ Proof.
     set (want := Nat.min (target_of HS rl short s - length (m_buf s)) (cap budget (m_cnt s))) in *.
     pose proof (firstn_skipn want avail) as FS.
     destruct (firstn want avail) as [|g0 gs] eqn:GOT.
-    + inversion H; subst. apply refines_refl. exact G.
+    + (* 0-byte read: the buffer is parsed; from a settled state that is a no-op *)
+      rewrite (feedx_fuel HS handle rl) in H by (unfold mu; lia).
+      destruct G as [GS GM]. rewrite M in GS. rewrite GS in H. inversion H; subst.
+      assert (G' : good (mk_mst (m_h s) RIdle (m_buf s) (S (m_cnt s)))).
+      { split; cbn [m_h m_mode m_buf]; [exact GS|]. rewrite M in GM. exact GM. }
+      split; [exact G'|]. exists []. split; [reflexivity|].
+      intros y. cbn [app]. unfold A. cbn [m_h m_mode m_buf]. rewrite M. symmetry. apply papp_nil.
     + set (got := g0 :: gs) in *.
       destruct (bufcap <? length (m_buf s) + length got); [discriminate|].
       rewrite (feedx_fuel HS handle rl) in H by (unfold mu; rewrite app_length; lia).
@@ -240,7 +246,9 @@ Proof.
     pose proof (firstn_le_length want avail) as FL.
     assert (FL2 : length (firstn want avail) <= want) by (rewrite firstn_length; lia).
     destruct (firstn want avail) as [|g0 gs] eqn:GOT.
-    + do 3 eexists. split; [reflexivity|]. split; [lia|].
+    + rewrite (feedx_fuel HS handle rl) by (unfold mu; lia).
+      destruct G as [GS GM]. rewrite M in GS. rewrite GS.
+      do 3 eexists. split; [reflexivity|]. split; [lia|].
       intros NE _. exfalso. apply (firstn_nonempty want avail W NE). exact GOT.
     + set (got := g0 :: gs) in *.
       assert (SK : length (skipn want avail) < length avail).
@@ -336,23 +344,54 @@ Proof.
   unfold ProofsB.papp. rewrite app_nil_r. reflexivity.
 Qed.
 
+(* ---- handover from the handshake ---------------------------------------------------------- *)
+(* push_unread(pre) + one event_read on an empty socket: every complete message contained in
+   the handed-over bytes is dispatched (the state reached is the decode of pre, and what stays
+   in the buffer is an incomplete message).  |pre| < 512: HandshakeManager refuses more than
+   512 (C06), and exactly 512 would leave no room to complete a message. *)
+Theorem handover_dispatches_complete : forall (h : HS) (pre : list N),
+  length pre < bufsz ->
+  exists s0 es0,
+    handover HS handle rl budget short h pre [] = MRet s0 [] es0 /\
+    decode HS handle rl h pre = PRes (m_h s0) (m_mode s0) (m_buf s0) es0 /\
+    good s0.
+Proof.
+  intros h pre L. unfold handover. destruct pre as [|p0 ps] eqn:P.
+  - exists (mk_mst h RIdle [] 0), []. split; [reflexivity|]. split.
+    + rewrite decode_feedx, feedx_idle. reflexivity.
+    + split; cbn; [rewrite feedx_idle|]; reflexivity.
+  - rewrite <- P in *. unfold ev_fuel. cbn [length Model.ev m_mode m_buf m_h m_cnt]. cbv zeta.
+    assert (T : target_of HS rl short (mk_mst h RIdle pre 0) = bufsz).
+    { unfold target_of. cbn [m_buf m_cnt]. subst pre. cbn [length Nat.eqb]. rewrite andb_false_r. reflexivity. }
+    rewrite T. assert (LT : (length pre <? bufsz) = true) by (apply Nat.ltb_lt; exact L). rewrite LT.
+    assert (W : firstn (Nat.min (bufsz - length pre) (cap budget 0)) (@nil N) = []) by apply firstn_nil.
+    rewrite W. rewrite (feedx_fuel HS handle rl) by (unfold mu; lia).
+    destruct (feedx_total' HS handle rl h RIdle pre) as (h1 & m1 & b1 & es1 & F1).
+    rewrite F1. exists (mk_mst h1 m1 b1 1), es1. split; [reflexivity|]. split.
+    + rewrite decode_feedx. exact F1.
+    + eapply good_of_feed; eauto.
+Qed.
+
 (* Machine-level segmentation independence, buffer safety and no-spin in one statement: for
    every handler, role, recv budget oracle, target oracle and every list of segments, the run
    ends normally (no MFault = no write past the 512-byte buffer / no read outside the unread
    bytes; no MOut = every loop iteration consumed input or returned) and its handler state,
    read mode, unread rest and effect sequence are those of decoding the concatenation. *)
-Theorem machine_segmentation_independent : forall (h : HS) (segs : list (list N)),
+Theorem machine_segmentation_independent : forall (h : HS) (pre : list N) (segs : list (list N)),
+  length pre < bufsz ->
   exists s' es,
-    run HS handle rl budget short h [] segs = MRet s' [] es /\
-    decode HS handle rl h (concat segs) = PRes (m_h s') (m_mode s') (m_buf s') es.
+    run HS handle rl budget short h pre segs = MRet s' [] es /\
+    decode HS handle rl h (pre ++ concat segs) = PRes (m_h s') (m_mode s') (m_buf s') es.
 Proof.
-  intros h segs.
-  assert (G0 : good (mk_mst h RIdle [] 0)).
-  { split; cbn; [rewrite feedx_idle|]; reflexivity. }
+  intros h pre segs L.
+  destruct (handover_dispatches_complete h pre L) as (s0 & es0 & HO & D0 & G0).
   destruct (run_segs_total segs _ G0) as (s' & es & R).
-  assert (RUN : run HS handle rl budget short h [] segs = MRet s' [] es).
-  { unfold run, handover. rewrite R. reflexivity. }
-  exists s', es. split; [exact RUN|]. eapply machine_refines_decode; eauto.
+  destruct (run_segs_refines _ _ _ _ _ G0 R) as [[G1 _] RR].
+  exists s', (es0 ++ es). split.
+  - unfold run. rewrite HO, R. reflexivity.
+  - rewrite decode_feedx in *. rewrite (feedx_app' HS handle rl h RIdle pre (concat segs)), D0.
+    unfold ProofsB.pbind. unfold A in RR. rewrite RR, app_nil_r, G1.
+    unfold ProofsB.papp. rewrite app_nil_r. reflexivity.
 Qed.
 
 End MachineProofs.
